@@ -359,3 +359,31 @@ def check(ctx, run):  # noqa: F811
     run.oblige("C19.R8", "bisect: the bracket is carried in the dtype of its ends", not bad, "; ".join(bad))
     if bad:
         run.fail(Finding("C19.R8", bis.qualname, "; ".join(bad)[:300], "the bracket is narrowed at another precision than the one of the inputs", file=str(prog.modules[bis.module].path), line=bis.node.lineno))
+    # ... and find_implied_volatility hands bisect a bracket in the dtype of the price (bounds given as Python numbers are converted to it)
+    fiv = prog.functions.get("pfhedge._utils.bisect.find_implied_volatility") or prog.functions.get("pfhedge.nn.functional.find_implied_volatility")
+    if fiv is None:
+        cands = [q for q in prog.functions if q.endswith(".find_implied_volatility")]
+        fiv = prog.functions[cands[0]] if cands else None
+    if fiv is None:
+        raise AnalysisError("anchor vanished: find_implied_volatility")
+    pr = Sym("pricer", ("callable",))
+    res = [r for r in interp.explore(fiv, [pr, W.tensor("price")], dict(precision=W.fl("precision"), log_moneyness=W.tensor("s")), max_paths=60) if not r["raises"]]
+    if not res:
+        raise AnalysisError("find_implied_volatility: no analysable path")
+    bad = []
+    for r in res:
+        for e in r["events"]:
+            if e["kind"] == "call" and e["callee"].endswith("bisect.bisect"):
+                kwb = dict(e["kwargs"])
+                for k_, v_ in zip(("fn", "target", "lower", "upper"), e["args"]):
+                    kwb[k_] = v_
+                for end in ("lower", "upper"):
+                    pv = Provenance()
+                    got = pv.of(kwb.get(end))
+                    if got != DATA:
+                        bad.append(f"the {end} end of the bracket has a {got} dtype ({'; '.join(sorted({w for _, w in pv.leaves}))[:100] or 'a Python number packed into a tensor without the dtype of the price'})")
+    bad = sorted(set(bad))
+    run.oblige("C19.R8", "find_implied_volatility: the bracket is in the dtype of the price", not bad, "; ".join(bad))
+    if bad:
+        run.fail(Finding("C19.R8", fiv.qualname, "; ".join(bad)[:300], "the search runs at float32 resolution for float64 prices: a precision below 3e-8 cannot be met and the result comes back in another dtype",
+                         file=str(prog.modules[fiv.module].path), line=fiv.node.lineno))
